@@ -33,6 +33,10 @@ CHECKS = {
    text="Every token string x over a 30-token class-representative alphabet up to 5 (quick) / 6 (thorough) tokens, from four start nodes, is parsed by the real parser::parse; accepted units are re-parsed with every continuation of up to 2-3 tokens, rejected newline-terminated inputs likewise, and Incomplete verdicts are related to the verdicts of all byte prefixes. Exhaustive within these bounds; nothing is sampled.",
    note="Assumes the alphabet is class-representative for the parser's byte predicates (DESIGN.md 3.2); continuations bounded to 3 tokens; trusts rustc and the harness's verdict comparison.",
    technique="bounded exhaustive enumeration (stateless model checking) of parser inputs and continuations on the real code"),
+ "C13": dict(engine="lex-sweep+env-enum",
+   text="A counting global allocator (per-thread counters of alloc/realloc/alloc_zeroed) is read before and after every call of run, process and write_response on exhaustive sweeps: all 7.5e8 token strings of <=6 tokens (thorough <=7) through run with a heapless writer, all streams of <=2 (thorough 3) pool messages through process::<16|64> under every chunking with <=2 cuts, and response value tables for every response type into a heapless writer; the count must be exactly 0. In addition one build obligation: a #![no_std] static library without global allocator that instantiates a macro-generated interface, run and process::<32> must build against the tree with default features.",
+   note="The monitor is evaluated on every execution of an exhaustive exploration; the no_std build is a single deterministic obligation (not an exploration), reported as obligations:1 in the evidence. Harness recorders are pre-allocated so that the expected count is exactly zero.",
+   technique="allocation monitor on every execution of bounded exhaustive sweeps of the real code, plus a no_std/no-allocator build obligation"),
 }
 LEVEL = {"C10": "fault_enumeration"}  # property -> category override
 
